@@ -35,6 +35,38 @@ pub fn families(prop: &str, tier: Tier) -> Vec<Cfg> {
         x.dev = 0;
         v.push(x);
     }
+    // everything the broker may negotiate varies from connection to connection at once (small windows, tiny and
+    // moderate packet limits, a Maximum QoS below the requested one, lost sessions, refusing acknowledgements),
+    // with every kind of request, empty and short payloads
+    const MIXED: [(&str, &str); 9] = [
+        ("C01", "C01-everything-negotiable-varies"),
+        ("C02", "C02-everything-negotiable-varies"),
+        ("C03", "C03-everything-negotiable-varies"),
+        ("C05", "C05-everything-negotiable-varies"),
+        ("C06", "C06-everything-negotiable-varies"),
+        ("C12", "C12-everything-negotiable-varies"),
+        ("C16", "C16-everything-negotiable-varies"),
+        ("C18", "C18-everything-negotiable-varies"),
+        ("C07", "C07-everything-negotiable-varies"),
+    ];
+    if let Some((p, name)) = MIXED.iter().find(|(p, _)| *p == prop) {
+        let q = tier == Tier::Quick;
+        let mut x = Cfg::base(name);
+        x.props = vec![p];
+        x.ops = vec![OpK::Pub1, OpK::Pub2, OpK::Sub, OpK::Unsub, OpK::Poll, OpK::DropConn];
+        x.io = IoMenu::benign();
+        x.payload_sizes = vec![0, 2];
+        x.broker.receive_max = vec![Some(1), Some(2), None];
+        x.broker.max_packet = vec![None, Some(8), Some(20)];
+        x.broker.max_qos = vec![None, Some(1)];
+        x.broker.may_lose_session = true;
+        x.broker.ack_fail = true;
+        x.max_ops = if q { 6 } else { 7 };
+        x.max_conns = 3;
+        x.max_reqs = if q { 3 } else { 4 };
+        x.dev = 0;
+        v.push(x);
+    }
     // successful acknowledgements in every legal form (shortest, explicit reason code, explicit property length,
     // with Reason String and User Properties)
     const FORMS: [(&str, &str); 6] = [
